@@ -31,10 +31,9 @@ var c01Cells = []struct{ name, prog string }{
 	{"mapcar.order", "(mapcar (lambda (vz) (vtr (* vz 10))) (vtr (quote (1 2 3))))"},
 	{"mapcar.two-lists", "(mapcar (lambda (vy vz) (vtr (+ vy vz))) (quote (1 2 3)) (quote (10 20)))"},
 	{"mapcar.nil-literal", "(mapcar (function 1+) nil)"},
-	{"funcall.zero-args", "(funcall (lambda () (vtr 5)))"},
+	{"mapcar.nil-through-let", "(mapcar (function vtr) (let ((va 1)) (list)))"},
+	{"mapcar.nil-second-list", "(mapcar (function +) (quote (1 2)) nil)"},
 	{"funcall.symbol", "(defun c01fs# (vz) (vtr (+ vz 1))) (funcall (quote c01fs#) 1)"},
-	{"lambda.too-few-args", "(funcall (lambda (va vb) (vtr 1)) 1)"},
-	{"lambda.too-many-args", "(funcall (lambda (va) (vtr 1)) 1 2)"},
 	// quote
 	{"quote.data", "(quote (a \"s\" 1 (b . c) nil t (quote d)))"},
 	{"quote.no-eval", "(quote (vtr 1))"},
@@ -69,6 +68,8 @@ var c01Cells = []struct{ name, prog string }{
 	{"defun.free-var-lexical", "(defun c01fv# (vz) (vtr vq#)) (setq vq# 1) (let ((vq# 2)) (c01fv# 0))"},
 	{"defun.recursion", "(defun c01fact# (vn) (if (< vn 2) 1 (* vn (c01fact# (- vn 1))))) (vtr (c01fact# 5))"},
 	{"defun.late-binding", "(defun c01a# (vz) (c01b# vz)) (defun c01b# (vz) (vtr (+ vz 1))) (c01a# 1)"},
+	{"dlambda.in-defun", "(defun c01dl# (vx) ((lambda (vy) vx) 1)) (vtr (c01dl# 5))"},
+	{"dlambda.in-defun-arg", "(defun c01dl# (vx) (vtr ((lambda (vy) (vtr vy) vx) 1))) (c01dl# 5)"},
 	{"dlambda.call", "((lambda (va vb) (vtr (- va vb))) (vtr 5) (vtr 3))"},
 	// loops
 	{"dolist.var-nil-in-result", "(dolist (vx (quote (1 2)) (vtr vx)) (vtr vx))"},
@@ -76,6 +77,8 @@ var c01Cells = []struct{ name, prog string }{
 	{"dotimes.no-result", "(dotimes (vi (vtr 2)) (vtr vi))"},
 	{"do.parallel-step", "(do ((vi 0 (+ vi 1)) (va 0 (+ va vi))) ((>= vi 3) (vtr va)) (vtr vi))"},
 	{"dostar.sequential-step", "(do* ((vi 0 (+ vi 1)) (va 0 (+ va vi))) ((>= vi 3) (vtr va)) (vtr vi))"},
+	{"do.var-without-step", "(do ((vi 0 (+ vi 1)) (va (vtr 5))) ((>= vi 2) (vtr va)) (vtr vi))"},
+	{"dostar.var-without-step", "(do* ((vi 0 (+ vi 1)) (va (vtr 5)) vb) ((>= vi 2) (vtr (list va vb))) (vtr vi))"},
 	{"do.no-result", "(do ((vi 0 (+ vi 1))) ((>= vi 2)) (vtr vi))"},
 	{"do.parallel-init", "(let ((vi 7)) (do ((vi 0 (+ vi 1)) (va vi)) ((>= vi 1) (vtr va))))"},
 	{"dostar.sequential-init", "(let ((vi 7)) (do* ((vi 0 (+ vi 1)) (va vi)) ((>= vi 1) (vtr va))))"},
